@@ -5,6 +5,7 @@ import EupsModel.Lemmas.PathAlgRef
 import EupsModel.Lemmas.PathAct
 import EupsModel.Lemmas.PathActEups
 import EupsModel.Lemmas.PathAlgRun
+import EupsModel.Lemmas.PathAlgFlags
 /-! C12 — path-variable commands obey list algebra.  Property theorems only (helper lemmas live in
 `Lemmas/PathAlg.lean`, the model in `Model/PathAlg.lean`). -/
 namespace EupsModel.C12
@@ -561,6 +562,25 @@ theorem string_level_is_list_level_multi_value (d : Str) (hd : d ≠ []) (hd36 :
   envPrepend_lifts_vals d hd hd36 append fwd var vals oldl env hvne hold hv henv
 
 example : GoodPieceD [58, 58] (Str.ofString "/opt/bin") := by unfold GoodPieceD; decide
+
+
+/-- MANPATH style for a literal delimiter of any length and a value of several elements: the new value is the list
+result with the requested leading / trailing delimiters re-attached, never doubled; the elements the list already
+holds may carry any `$` text. -/
+theorem manpath_flags_any_delimiter (d : Str) (hd : d ≠ []) (hd36 : 36 ∉ d) (append pre app : Bool) (var : Str)
+    (vals oldl : List Str) (env : Env) (hvne : vals ≠ [])
+    (hold : ∀ e ∈ oldl, OldPieceD d e) (hv : ∀ e ∈ vals, GoodPieceD d e)
+    (henv : (env.get var).getD [] = join d oldl) :
+    envPrepend append true var (flaggedD d pre app (join d vals)) d env
+      = .ok (env.set var (flaggedD d pre app (join d (applyL append true vals oldl)))) :=
+  envPrepend_lifts_flags_old d hd hd36 append pre app var vals oldl env hvne hold hv henv
+
+/-- … so the new value starts (ends) with the delimiter iff a leading (trailing) one was written. -/
+theorem manpath_flags_iff_any_delimiter (d : Str) (hd : d ≠ []) (append pre app : Bool) (vals oldl : List Str)
+    (hvne : vals ≠ []) (hold : ∀ e ∈ oldl, OldPieceD d e) (hv : ∀ e ∈ vals, GoodPieceD d e) :
+    startsWith (flaggedD d pre app (join d (applyL append true vals oldl))) d = pre ∧
+    endsWith (flaggedD d pre app (join d (applyL append true vals oldl))) d = app :=
+  envPrepend_flags_result d hd append pre app vals oldl hvne hold hv
 
 
 end EupsModel.C12
